@@ -528,6 +528,11 @@ impl State {
                 };
                 let (new_write, new_path) = open_log_file(&self.config, Some(&infix))?;
 
+                // what is still buffered belongs into the file that is closed now;
+                // a failure must not go unnoticed when the writer is dropped
+                current_write.flush().unwrap_or_else(|e| {
+                    eprint_err(ErrorCode::Flush, "flushing the rotated file failed", &e);
+                });
                 *current_write = new_write;
                 *current_path = new_path;
 
@@ -629,7 +634,9 @@ impl State {
             if let Some(ref mut rotation_state) = o_rotation_state {
                 rotation_state.shutdown();
             }
-            writer.flush().ok();
+            writer.flush().unwrap_or_else(|e| {
+                eprint_err(ErrorCode::Flush, "flushing on shutdown failed", &e);
+            });
         }
     }
 }
